@@ -196,6 +196,20 @@ def cmd_check(prop, tier, seed, replay=None, budget=None, nshards=None):
         print("INCONCLUSIVE property=%s harness does not build against /repo: %s" % (prop, msg[:500]))
         return 2
     known = load_known()
+    if replay and prop == "C19":
+        checker = os.path.join(ROOT, "orchestrator", "c19_check.py")
+        out = os.path.join(SHARDS, "C19-replay.json")
+        os.makedirs(SHARDS, exist_ok=True)
+        p = subprocess.run(["bash", "-c", "set -o pipefail; %s intlog --file %s | python3 %s %s" % (BIN, replay, checker, out)], env=env())
+        if p.returncode != 0:
+            print("INCONCLUSIVE property=C19 replay failed to run")
+            return 2
+        r = json.load(open(out))
+        open_sigs, listed, unlisted = match_known(prop, r.get("violations", []), known)
+        for sig, vs in unlisted.items():
+            print("VIOLATION property=C19 replay=%s rule=%s signature=%s" % (replay, vs[0]["rule"], sig))
+            print("  detail: %s" % vs[0]["detail"][:400])
+        return 1 if unlisted else 0
     if replay:
         os.makedirs(SHARDS, exist_ok=True)
         out = os.path.join(SHARDS, "%s-replay.json" % prop)
